@@ -737,5 +737,29 @@ def decodeQ (q : Char) (v : Str) : Except DecErr Str := if q == '\'' then decode
 /-- the text between the quotes of `canonical_string(s)` -/
 def sqBody (s : Str) : Str := replaceChar '\'' ['\\', '\''] (replace2 '\\' '"' '"' (jsonEscape s))
 
+/-! ## Spellings the lexer reads back unambiguously -/
+
+/-- symbol characters that no fixed rule of the lexer starts with -/
+def safeChar (c : Char) : Bool :=
+  c == '$' || c == '@' || c == '#' || c == '_' || c == '~' || c == '^' || c == '%' || c == '+' || c == '|' || c == '&'
+
+def startsWith2 (s : Str) (a b : Char) : Bool :=
+  match s with
+  | x :: y :: _ => x == a && y == b
+  | _ => false
+
+/-- one spelling: non-empty, made of symbol characters, not beginning like `&&` or `||` -/
+def okSpelling (s : Str) : Bool := !s.isEmpty && s.all safeChar && !startsWith2 s '&' '&' && !startsWith2 s '|' '|'
+
+def pairwiseDistinct : List Str → Bool
+  | [] => true
+  | x :: xs => !xs.contains x && pairwiseDistinct xs
+
+/-- a set of identifier spellings the model proves to be read back as intended: every spelling is made of the
+    symbol characters `$ @ # _ ~ ^ % + | &`, none begins like the fixed `&&` / `||`, and they are pairwise
+    distinct. One may be a prefix of another (`$` / `$$`): the longest-first splice decides. -/
+def ValidSpell (sp : Spell) : Bool :=
+  (sp.envTokens.map (·.2)).all okSpelling && pairwiseDistinct (sp.envTokens.map (·.2))
+
 end Lex
 end JP
